@@ -1255,8 +1255,11 @@ def _lazy_db(edb: dict[str, ast.FunctionDef]) -> dict:
                 found = True
     if not found:
         raise TranslateError('get_fgd: `for i, ... in enumerate(self.unparsed): ... self._parse_block(i)` not recognised')
+    # every return of get_fgd hands out deepcopy(<something>) (then what FGD.engine_dbase receives is already the caller's own)
+    gf_rets = [n for n in ast.walk(gf) if isinstance(n, ast.Return)]
+    gf_deep = bool(gf_rets) and all(n.value is not None and _is_deepcopy(n.value) is not None for n in gf_rets)
     return dict(via_get_ent=via_get_ent, mark_before_resolve=mark[0] < loops[1], mark_after_decode=mark[0] > loops[0],
-                fgd_applies_bases=any(_is_call_method(n, 'apply_bases') for n in ast.walk(gf)))
+                fgd_applies_bases=any(_is_call_method(n, 'apply_bases') for n in ast.walk(gf)), get_fgd_returns_deepcopy=gf_deep)
 
 
 # ------------------------------------------------------------------------------------------ several databases
@@ -2665,7 +2668,8 @@ def translate() -> tuple[str, dict]:
         'Definition helper_arg_joiners : list (list N) := [' + '; '.join(_cstr(j) for j in ha['joiners']) + '].',
         '(* EntityDef.__deepcopy__: per attribute its shape (annotation) and how the copy is produced (SM/FgdCopyShare.v) *)',
         '(* what EntityDef.engine_def / FGD.engine_dbase return: deepcopy(<cached object>) = CDeep, the cached object itself = CShare *)',
-        'Definition answer_copies : list (string * cexpr) := [' + '; '.join(f'("{n}", {"CDeep" if d else "CShare"})' for n, d in md['answers_deep']) + '].',
+        'Definition answer_copies : list (string * cexpr) := [' + '; '.join(
+            f'("{n}", {"CDeep" if d or (n.startswith("engine_dbase") and db["lazy"]["get_fgd_returns_deepcopy"]) else "CShare"})' for n, d in md['answers_deep']) + '].',
         'Definition entity_copy_plan : list (string * (ftype * cexpr)) := [' + '; '.join(f'("{n}", ({t}, {e}))' for n, t, e in cpl['rows']) + '].',
         '(* _engine_db.build_blocks: size tests by role, and where blocks without entities leave the list (SM/FgdBlocks.v); serialise *)',
         'Definition gen_bcfg : bcfg := {| merge_fits := %s; add_fits := %s; ovf_full := %s; drop_empty_before_leftovers := %s; '
